@@ -30,6 +30,25 @@ fn main() {
             };
             std::process::exit(code);
         }
+        "fuzzcase" => {
+            // harness fuzzcase <hist|small> <file>: decode a libFuzzer input into the structured case and run it
+            let data = std::fs::read(&args[3]).expect("read");
+            if args[2] == "hist" {
+                match harness::fuzzing::case_from_bytes(&data) {
+                    Some(c) => {
+                        println!("{}", serde_json::to_string(&c).unwrap());
+                        let t = std::time::Instant::now();
+                        let r = harness::fuzzing::run_history_case(&c);
+                        eprintln!("ran in {:?}: {:?}", t.elapsed(), r);
+                    }
+                    None => println!("null"),
+                }
+            } else {
+                let t = std::time::Instant::now();
+                let r = harness::fuzzing::run_small_case(&data);
+                eprintln!("selector {} ran in {:?}: {:?}", data[0] % 10, t.elapsed(), r.map(|x| (x.0, x.1)));
+            }
+        }
         "traces" => {
             let seed: u64 = args[2].parse().unwrap_or(1);
             let n: usize = args[3].parse().unwrap_or(10);
